@@ -21,7 +21,7 @@ def request(kind, fl, ml, nopt, ocode, vlo, vhi, rt, timeout=900, mem_kb=None):
     name = "c11_%s_f%d_m%d_o%d_t%d_v%d_%d_%s" % ({1: "rrq", 2: "wrq", 6: "oack"}[kind], fl, ml, nopt, ocode, vlo, vhi, "rt" if rt else "lay")
     return Inst(name, "packet", "c11_request!(%s, %d, %d, %d, %d, %d, %dusize, %dusize, %s, 34);" % (name, kind, fl, ml, nopt, ocode, vlo, vhi, "true" if rt else "false"),
                 "c11_request",
-                {"kind": kind, "filename_len": fl, "mode_len": ml, "options": nopt, "option_type": "symbolic" if ocode > 3 else "concrete (%d, then cyclic)" % ocode,
+                {"kind": kind, "filename_len": fl, "mode_len": ml, "options": nopt, "option_type": ("type %d repeated" % (ocode - 10)) if ocode >= 10 else "symbolic" if ocode > 3 else "concrete (%d, then cyclic)" % ocode,
                  "value_range": [vlo, vhi], "round_trip": rt}, timeout=timeout, mem_kb=mem_kb or 10 * 1024 * 1024)
 
 
@@ -36,7 +36,9 @@ def build(tier, seed):
     # (kind, filename len, mode len, options, first option type, value lo, value hi)
     lay = [(1, 1, 1, 0, 0, 0, 0), (2, 3, 3, 0, 0, 0, 0)]
     rt = [(1, 1, 1, 0, 0, 0, 0), (2, 2, 3, 0, 0, 0, 0), (6, 0, 0, 1, 0, 1432, 1432), (6, 0, 0, 1, 3, 65535, 65535), (1, 2, 2, 1, 1, 0, 0),
-          (2, 1, 1, 2, 2, 5, 5), (6, 0, 0, 1, 2, 255, 255), (6, 0, 0, 2, 0, 8, 8)]
+          (2, 1, 1, 2, 2, 5, 5), (6, 0, 0, 1, 2, 255, 255), (6, 0, 0, 2, 0, 8, 8),
+          # the same option type twice (first option type code + 10 = "all options of that type"): an option list is a list
+          (1, 1, 1, 2, 10, 512, 512), (2, 1, 1, 2, 11, 7, 7), (6, 0, 0, 2, 13, 4, 4)]
     if tier == "thorough":
         lay += [(1, 0, 0, 0, 0, 0, 0), (1, 3, 2, 0, 0, 0, 0), (2, 2, 1, 1, 1, 1000, 1000)]
         rt += [(6, 0, 0, 1, 1, 4294967296, 4294967296), (6, 0, 0, 1, 1, 18446744073709551615, 18446744073709551615),
